@@ -167,6 +167,13 @@ def run_verus(unit, expanded, must_fail=False, sub="common"):
                 item = it
                 break
         cls = "panic" if any(msg.startswith(m) for m in PANIC_MSGS) else "functional"
+        if msg.startswith("precondition not satisfied"):
+            # the failed precondition of a *proof* function called from a hint (lemma_* / ax_*) is a proof step of the
+            # functional argument, not a panic site of the real code
+            t0 = (prim[0].get("text") or [{}])[0]
+            call = (t0.get("text") or "")[max(0, t0.get("highlight_start", 1) - 1):max(0, t0.get("highlight_end", 1) - 1)]
+            if re.match(r"\s*(lemma_\w+|ax_\w+|\w+\s*::\s*ax_\w+)", call):
+                cls = "hint"     # owned by every property that owns the item, whatever the class
         if "rlimit" in msg.lower() or "resource limit" in msg.lower():
             cls = "rlimit"
         failures.append({"unit": unit, "item": item, "class": cls, "message": msg,
@@ -314,7 +321,7 @@ def check_property(pid, tier, seed):
                     undecided.append("soft obligation %s/%s failed (body of a shape without a proof recipe): %s" % (r["unit"], fl["item"], fl["message"]))
                 elif fl["class"] == "rlimit":
                     undecided.append("rlimit on %s/%s: %s" % (r["unit"], fl["item"], fl["message"]))
-                elif fl["class"] in owned_items[fl["item"]] or "all" in owned_items[fl["item"]]:
+                elif fl["class"] in owned_items[fl["item"]] or "all" in owned_items[fl["item"]] or fl["class"] == "hint":
                     failed.append(fl)
         r["lemma_fns"] = max(0, r["verified"] + r["errors"] - len([x for x in r["table"] if not x.get("sig_only")]))
     # vacuity: every contracted function of a must-fail twin must be rejected
